@@ -17,6 +17,7 @@ package l4wireguard
 import (
 	"bytes"
 	"encoding/binary"
+	"errors"
 	"io"
 	"strconv"
 
@@ -133,6 +134,9 @@ type MessageInitiation struct {
 }
 
 func (msg *MessageInitiation) FromBytes(src []byte) error {
+	if len(src) != MessageInitiationBytesTotal {
+		return ErrInvalidSourceLength
+	}
 	buf := bytes.NewBuffer(src)
 	if err := binary.Read(buf, MessageBytesOrder, &msg.Type); err != nil {
 		return err
@@ -223,6 +227,9 @@ func (msg *MessageTransport) ToBytes() ([]byte, error) {
 	}
 	return append(dst.Bytes(), msg.Content...), nil
 }
+
+// ErrInvalidSourceLength is returned by FromBytes when a fixed-size message is given another number of bytes.
+var ErrInvalidSourceLength = errors.New("invalid source length")
 
 // Interface guards
 var (
